@@ -210,9 +210,9 @@ def core_join(lk, rk, lf, rf, nl, nr):
     return True, {{}}
 
 
-_C3 = [0, 4, 6, 7, 8, 15]
+_C3 = [0, 4, 6, 7, 8, 15, 18, 19, 20, 21]
 CELLS = ['12', '1.5', 'true', 'false', '', 'null', 'abc', '2024-02-30', '2024-01-05', '2024-13-01', 'x,y', 'he said ""hi""', '2024-01-05T10:00:00Z',
-         '-3', '1e3', 'abc def', '2024-02-30T10:00:00Z', '0012']
+         '-3', '1e3', 'abc def', '2024-02-30T10:00:00Z', '0012', '2023-02-29', '2100-02-29', '2024-04-31', '2024-02-29']
 
 
 def core_csv(c1, c2, c3):
@@ -321,13 +321,17 @@ def plan(tier, seed, workdir):
         tasks.append((f'filter_n{n}', f'{V3}, nul: int, th: int', vpre(n) + [f'0 <= nul <= {n}'],
                       f'core_filter([v0, v1, v2], [nul == 1, nul == 2, nul == 3], {n}, th)'))
         tasks.append((f'calc_n{n}', f'{V3}, th: int', vpre(n, 3) + ['0 <= th < 3'], f'core_calc([v0, v1, v2], {n}, th)'))
+    if nmax < 3:
+        # dataTop with three rows also in quick: same-category rows that are not adjacent need >= 3 rows
+        tasks.append(('top_n3', f'{K3}, cnt: int, flt: bool, bycat: bool', [f'0 <= k{i} < {kmax}' for i in range(3)] + ['1 <= cnt <= 2', 'bycat'],
+                      'core_top([k0, k1, k2], [0, 0, 0], [False, False, False], 3, cnt, flt, bycat)'))
     layouts = [(1, 0), (2, 2), (0, 1), (3, 3), (2, 0)] if tier == 'quick' else [(a, b) for a in range(4) for b in range(4)]
     for lf, rf in layouts:
         tasks.append((f'join_{lf}{rf}', 'l0: int, l1: int, r0: int, r1: int, nl: int, nr: int',
                       [f'0 <= l0 < {jk}', f'0 <= l1 < {jk}', f'0 <= r0 < {jk}', f'0 <= r1 < {jk}', '1 <= nl <= 2', '1 <= nr <= 2'],
                       f'core_join([l0, l1], [r0, r1], {lf}, {rf}, nl, nr)'))
     for c2 in (0, 4, 7, 12):
-        tasks.append((f'csv_{c2}', 'c1: int, c3: int', ['0 <= c1 < 18', '0 <= c3 < 18' if tier == 'thorough' else '0 <= c3 < 6'],
+        tasks.append((f'csv_{c2}', 'c1: int, c3: int', ['0 <= c1 < 22', '0 <= c3 < 22' if tier == 'thorough' else '0 <= c3 < 10'],
                       f'core_csv(c1, {c2}, _C3[c3] if {tier == "quick"!r} else c3)'))
     body = CORE.format()
     for name, params, pre, call in tasks:
@@ -357,9 +361,9 @@ def plan(tier, seed, workdir):
             elif prm in ('nl', 'nr'):
                 dom[prm] = [1, 2]
             elif prm == 'c1':
-                dom[prm] = list(range(18))
+                dom[prm] = list(range(22))
             elif prm == 'c3':
-                dom[prm] = list(range(18 if tier == 'thorough' else 6))
+                dom[prm] = list(range(22 if tier == 'thorough' else 10))
             else:
                 return None
         return dom
